@@ -76,6 +76,7 @@ PLAN = {
     "C09": {
         "level": "proof",
         "contracts": ["contracts.tree_value"],
+        "bounded": ["bounded.c09"],
     },
     "C12": {
         "level": "proof",
@@ -246,12 +247,15 @@ MANIFEST_TEXT = {
         "text": "Contracts on the real TreeValue.append/_reduce_trailing_bits/to_bytes/to_string/to_bits and "
                 "DerivationTree.value: bit content of the result = concatenation of the operands' bit contents, raises exactly "
                 "when text/bytes follow a non-aligned run of bits, the three views agree, the operand `other` is not written, "
-                "value() is the in-order fold of the children (loop invariant, nesting independent). All VCs discharged for "
-                "all payloads (symbolic strings / bit sequences), per kind combination.",
+                "value() is the in-order fold of the children (loop invariant). All VCs discharged for all payloads (symbolic strings / "
+                "bit sequences), per kind combination. Bounded half (not counted as proved): the three views of trees built from leaf "
+                "sequences over text / bytes / bit runs in up to five nestings against a reference computed from the leaf list alone; "
+                "it shows that the per-function contracts do NOT compose to nesting independence when a subtree is unaligned by itself "
+                "(recorded known finding).",
         "note": "codecs (utf-8, latin-1, bit packing, '08b' rendering) are uninterpreted functions with assumed homomorphism / "
                 "inverse laws applied as ground instances; three comprehension expressions in to_bits and the 0/1 assertion in "
                 "__init__ get their meaning from the contract (expr_hooks); terminal leaves' stored values and to_int are not covered.",
-        "technique": "contract-based deductive verification: own VC generator over the real source, sequence theory, z3",
+        "technique": "contract-based deductive verification: own VC generator over the real source, sequence theory, z3; plus a bounded run-time check against a leaf-list reference",
     },
     "C12": {
         "text": "Object invariant of the parser's forest cache (an entry holds the complete forest of its key) as an obligation "
